@@ -265,7 +265,7 @@ func TestProp_Listener(t *testing.T) {
 					req.ClientStateSignature = ed25519.Sign(signer.CertPriv, req.ClientState)
 				}
 				if v.CommonName {
-					req.CommonName = "attacker-chosen-name"
+					req.CommonName = rapid.SampledFrom([]string{"attacker-chosen-name", nodeenrollment.CommonDnsName, nodeenrollment.CommonDnsName}).Draw(t, "commonName")
 				}
 				reqBytes, _ := proto.Marshal(req)
 				if !honest && rapid.IntRange(0, 5).Draw(t, "mutate") == 0 {
